@@ -78,6 +78,19 @@ func (k *c03client) mget(slots ...int) []string {
 	return keys
 }
 
+// del sends a DEL whose keys lie in several slots (merged integer reply: it carries no
+// token, but it is rendered by the proxy itself into whatever buffer the request's
+// message object holds).
+func (k *c03client) del(slots ...int) {
+	args := []string{"DEL"}
+	for i, s := range slots {
+		args = append(args, k.key(s, i))
+	}
+	k.cl.Send(Req(args...))
+	k.nreq++
+	k.sent = append(k.sent, strings.Join(args, " "))
+}
+
 // judge checks attribution of everything the client received.
 func (k *c03client) judge(c *Check, scenario string) {
 	s := k.cl.Snapshot()
@@ -90,6 +103,12 @@ func (k *c03client) judge(c *Check, scenario string) {
 			vals = []Val{r.Val}
 		case '*':
 			vals = r.Val.Arr
+		}
+		if aligned && strings.HasPrefix(k.sent[i], "DEL ") && (r.Val.Kind == '$' || r.Val.Kind == '*') {
+			c.Violate(Violation{Class: "reply-of-another-request", Shape: scenario,
+				Detail:  fmt.Sprintf("connection %d: position %d is a DEL but holds %s", k.id, i, r.Val.String()),
+				Witness: map[string]interface{}{"scenario": scenario, "connection": k.id, "requests_sent": k.sent, "replies": valStrings(s.Replies)}})
+			return
 		}
 		for _, v := range vals {
 			if v.Null {
@@ -122,7 +141,7 @@ func (k *c03client) judge(c *Check, scenario string) {
 }
 
 func runC03(c *Check, rng *rand.Rand) {
-	c.Rule = "chaos episodes on a topology with an unowned slot range and a listed node that refuses connections: concurrent clients pipeline GET/MGET against gated backends while (P) multi-key requests fail routing after some fragments were queued and other clients' requests follow immediately, (O) a fragment reply above the size limit completes a split request while its sibling is outstanding, (D) clients abort with requests in flight and new clients connect at once, (K) backend connections are killed and re-dialled, (T, timeout=300ms) requests time out and their replies arrive late; (a third environment runs K/D/P with a password and replicas, every re-dialled backend connection starting with a one- or two-step handshake answered byte by byte); then all gates open in random order. Every value the fake cluster returns names the connection and request it was produced for; oracle: a client only ever receives values of its own connection, in request order (exact position when reply count equals request count); proxy-generated errors carry no token and are always acceptable; distinct = (scenario, clients, shape)"
+	c.Rule = "chaos episodes on a topology with an unowned slot range and a listed node that refuses connections: concurrent clients pipeline GET/MGET (and multi-slot DEL, whose merged integer replies wait behind gated requests) against gated backends while (P) multi-key requests fail routing after some fragments were queued and other clients' requests follow immediately, (O) a fragment reply above the size limit completes a split request while its sibling is outstanding, (D) clients abort with requests in flight and new clients connect at once, (K) backend connections are killed and re-dialled, (T, timeout=300ms) requests time out and their replies arrive late; (a third environment runs K/D/P with a password and replicas, every re-dialled backend connection starting with a one- or two-step handshake answered byte by byte); then all gates open in random order. Every value the fake cluster returns names the connection and request it was produced for; oracle: a client only ever receives values of its own connection, in request order (exact position when reply count equals request count); proxy-generated errors carry no token and are always acceptable; distinct = (scenario, clients, shape)"
 	c.Assumptions = []string{"token attribution only; whether an error was due, and reply counts, are other properties' subject"}
 	var wg sync.WaitGroup
 	run := func(timeout int, scen []string, seed int64, mode string) {
@@ -279,6 +298,9 @@ func c03env(c *Check, rng *rand.Rand, timeout int, scen []string, mode string) {
 					k := a.get(goodSlot())
 					track(k)
 					gate(k)
+					if rng.Intn(3) == 0 {
+						a.del(goodSlot(), goodSlot(), goodSlot()) // completes at once, waits behind the gated GET
+					}
 				}
 			}
 			env.Barrier()
@@ -308,6 +330,11 @@ func c03env(c *Check, rng *rand.Rand, timeout int, scen []string, mode string) {
 						k := a.get(goodSlot())
 						track(k)
 						gate(k)
+					}
+					if rng.Intn(3) == 0 {
+						a.del(goodSlot(), goodSlot())
+						k := a.get(goodSlot()) // a short reply right behind the merged integer
+						track(k)
 					}
 				}
 			}
